@@ -22,7 +22,8 @@ for e in new:
     if e.get('status') == 'fixed':
         c = str(e.get('commit') or '')
         for name, (h, subj) in fixhash.items():
-            if name in c:
+            short = re.match(r'(C\d+-\d+)', name).group(1)
+            if name in c or re.search(r'\b%s\b' % re.escape(short), c):
                 e['commit'] = h
                 e['fix_patch'] = 'fixes/%s.diff' % name
                 used.add(name)
